@@ -579,6 +579,40 @@ theorem weightPixels_finite (num : Num α) (fin : α → Prop) (hc : FiniteClose
   obtain ⟨h1, h2⟩ := hS coil hcoil _ (List.getElem_mem hp)
   exact ⟨hc.mul _ _ h1 (hw p), hc.mul _ _ h2 (hw p)⟩
 
+/-- the masked k-space of finite data is finite **whatever the mask values are** (the mask is only compared with
+`0`, never multiplied in): `torch.where(mask == 0, 0, k)` -/
+theorem maskPixels_finite (num : Num α) (fin : α → Prop) (hc : FiniteClosed num fin) (m : Nat → α)
+    (S : SMap α) (hS : AllFinite fin S) : AllFinite fin (maskPixels m S) := by
+  intro coil' hcoil' c' hc'
+  unfold maskPixels at hcoil'
+  obtain ⟨coil, hcoil, rfl⟩ := List.mem_map.mp hcoil'
+  obtain ⟨p, hp, rfl⟩ := List.mem_mapIdx.mp hc'
+  by_cases h : m p = 0
+  · simp only [h, if_true]; exact ⟨hc.zero, hc.zero⟩
+  · simp only [h, if_false]; exact hS coil hcoil _ (List.getElem_mem hp)
+
+omit [Add α] [Mul α] in
+/-- off the mask the ACS k-space is exactly zero, on the mask it is the data itself -/
+theorem maskPixels_entry (m : Nat → α) (S : SMap α) (c p : Nat) :
+    ((maskPixels m S)[c]?.bind (·[p]?)) =
+      (S[c]?.bind (·[p]?)).map fun x => if m p = 0 then ((0 : α), (0 : α)) else x := by
+  unfold maskPixels
+  simp only [List.getElem?_map]
+  cases S[c]? with
+  | none => rfl
+  | some coil => simp [List.getElem?_mapIdx]
+
+/-- for a 0/1 mask over a semiring-like scalar type masking is the product with the mask (the form the code had
+before): stated for ℝ -/
+theorem maskPixels_eq_weightPixels_real (m : Nat → ℝ) (hm : ∀ p, m p = 0 ∨ m p = 1) (S : SMap ℝ) :
+    maskPixels m S = weightPixels m S := by
+  unfold maskPixels weightPixels divMapWith
+  apply List.map_congr_left
+  intro coil _
+  congr 1
+  funext p c
+  rcases hm p with h | h <;> simp [h]
+
 omit [DecidableEq α] in
 /-- **`gaussWeight_finite`**: finite positive weights — every division of the window has a non-zero divisor
 (`W - 1` for `W ≥ 2`, none for `W = 1`, `sigma ≠ 0` by the guard), so the weights are finite whatever `x / 0` is -/
@@ -599,10 +633,10 @@ theorem gaussWeight_finite (num : Num α) (wn : WinNum α) (fin : α → Prop) (
 theorem acsKspace_finite (num : Num α) (wn : WinNum α) (fin : α → Prop) (hc : FiniteClosed num fin)
     (hi : ∀ n, fin (wn.ofInt n)) (he : ∀ x, fin x → fin (wn.expNeg x)) (hz : ∀ n : Int, n ≠ 0 → wn.ofInt n ≠ 0)
     (sigma : Option α) (hsf : ∀ s, sigma = some s → fin s) (W : Nat) (k : SMap α) (hk : AllFinite fin k)
-    (m : Nat → α) (hm : ∀ p, fin (m p)) : AllFinite fin (acsKspace num wn sigma W k m) := by
+    (m : Nat → α) : AllFinite fin (acsKspace num wn sigma W k m) := by
   unfold acsKspace
   cases hs : gaussianActive sigma with
-  | none => exact weightPixels_finite num fin hc m hm k hk
+  | none => exact maskPixels_finite num fin hc m k hk
   | some s =>
     have hs' : sigma = some s ∧ s ≠ 0 := by
       unfold gaussianActive at hs
@@ -613,7 +647,7 @@ theorem acsKspace_finite (num : Num α) (wn : WinNum α) (fin : α → Prop) (hc
         · simp [ht] at hs
         · simp only [ht, if_false, Option.some.injEq] at hs; subst hs; exact ⟨rfl, ht⟩
     simp only
-    apply weightPixels_finite num fin hc _ _ _ (weightPixels_finite num fin hc m hm k hk)
+    apply weightPixels_finite num fin hc _ _ _ (maskPixels_finite num fin hc m k hk)
     intro p
     exact gaussWeight_finite num wn fin hc hi he hz s hs'.2 (hsf s hs'.1) W _
 
@@ -623,10 +657,10 @@ theorem estimate_gauss_finite (num : Num α) (wn : WinNum α) (fin : α → Prop
     (hi : ∀ n, fin (wn.ofInt n)) (he : ∀ x, fin x → fin (wn.expNeg x)) (hz : ∀ n : Int, n ≠ 0 → wn.ofInt n ≠ 0)
     (B : SMap α → SMap α) (hB : ∀ x, AllFinite fin x → AllFinite fin (B x))
     (sigma : Option α) (hsf : ∀ s, sigma = some s → fin s) (W : Nat) (k : SMap α) (hk : AllFinite fin k)
-    (m : Nat → α) (hm : ∀ p, fin (m p)) :
+    (m : Nat → α) :
     AllFinite fin (estimateRSS num (estimateAcsImage num wn B sigma W k m)) := by
   apply estimateRSS_finite num fin hc
-  exact hB _ (acsKspace_finite num wn fin hc hi he hz sigma hsf W k hk m hm)
+  exact hB _ (acsKspace_finite num wn fin hc hi he hz sigma hsf W k hk m)
 
 end finite2
 
